@@ -198,6 +198,8 @@ def run(ctx):
     throwing_conversions(ctx)
     nullable_initializer(ctx)
     expr_tokens_carry_expressions(ctx)
+    looked_up_types_may_lack_cpptype(ctx)
+    nullable_array_bounds(ctx)
     containment_recursion(ctx)
     construction_stacks(ctx)
     lexer_restore_order(ctx)
@@ -1005,17 +1007,12 @@ INITIALIZER_EXEMPT = {
 }
 
 
-def nullable_initializer(ctx):
-    """R15.16: CPPInstance::_initializer is null for every variable without an initializer.  Every dereference is behind
-    a test that it is not null (same base expression), with one reasoned exception that is itself made an obligation:
-    the parameter-expression branch of CPPInstance::output relies on CPPParameterList::output not clearing the
-    initializer of a parameter expression (F-C15l: `int operator [](n) const;` -> SIGSEGV)."""
-    db = ctx.db
-    ctx.rule("R15.16", "every dereference of CPPInstance::_initializer (->, unary *) is dominated by a test that the same expression is not null; CPPParameterList::output, which clears default values while it prints, leaves the initializer of a parameter expression alone")
-    FIELD = "CPPInstance::_initializer"
-    n = 0
+def _nullable_field_sites(db, FIELD, dirs=("/cppparser/", "/interrogate/")):
+    """(function, dereferencing node, field node, normalised spelling of the field expression, guarded?) for every
+    dereference (->, member call, unary *) of the pointer member FIELD.  guarded = the node is unreachable once every
+    edge that establishes `<same spelling> != nullptr` is cut."""
     for f in db.functions:
-        if "bison" in f.file or not any(d in f.file for d in ("/cppparser/", "/interrogate/")):
+        if "bison" in f.file or not any(d in f.file for d in dirs):
             continue
         sites = []
         for x in f.walk():
@@ -1029,7 +1026,6 @@ def nullable_initializer(ctx):
             if b is not None and b.get("k") == "mem" and (field_of(b) or "").endswith(FIELD):
                 sites.append((x, b))
         for x, b in sites:
-            n += 1
             key = _norm(show(b))
 
             def nonnull(atom, truth, key=key):
@@ -1046,7 +1042,21 @@ def nullable_initializer(ctx):
                 a = strip_casts(peel(atom)) if atom is not None else None
                 return a is not None and (field_of(a) or "").endswith(FIELD) and _norm(show(a)) == key and truth
             edges = G.edges_where(f, nonnull)
-            ok = G.gated(f, x, edges)
+            yield f, x, b, key, G.gated(f, x, edges)
+
+
+def nullable_initializer(ctx):
+    """R15.16: CPPInstance::_initializer is null for every variable without an initializer.  Every dereference is behind
+    a test that it is not null (same base expression), with one reasoned exception that is itself made an obligation:
+    the parameter-expression branch of CPPInstance::output relies on CPPParameterList::output not clearing the
+    initializer of a parameter expression (F-C15l: `int operator [](n) const;` -> SIGSEGV)."""
+    db = ctx.db
+    ctx.rule("R15.16", "every dereference of CPPInstance::_initializer (->, unary *) is dominated by a test that the same expression is not null; CPPParameterList::output, which clears default values while it prints, leaves the initializer of a parameter expression alone")
+    FIELD = "CPPInstance::_initializer"
+    n = 0
+    if True:
+        for f, x, b, key, ok in _nullable_field_sites(db, FIELD):
+            n += 1
             inst = "%s|%s" % (f.name, _norm(show(x))[:50])
             if not ok and f.name == "CPPInstance::output":
                 pe = G.edges_where(f, lambda atom, truth: truth and atom is not None and atom.get("k") == "call" and callee_short(atom) == "is_parameter_expr")
@@ -1177,3 +1187,186 @@ def expr_tokens_carry_expressions(ctx):
             ctx.ob("R15.17", "%s|%s@%s|fresh-expression" % (f.name, vals[kind], callee_short(x) if x.get("k") == "call" else "CPPToken"), ok, f.loc(x),
                    "the %s token's value %s `u.expr = new ...` just before it is made" % (vals[kind], "gets" if ok else "does NOT get"))
     ctx.floor("R15.17", "constructions of expression-carrying tokens", n, 3)
+
+
+CPPTYPE_EXEMPT = {
+    "InterfaceMakerPythonNative::pack_return_value": "the index is builder.get_type() of a type for which is_scoped_enum() holds; get_type returns 0 only for "
+                                                      "templates and for names registered as invalid, and an enumeration is neither",
+}
+
+
+def looked_up_types_may_lack_cpptype(ctx):
+    """R15.18: InterrogateDatabase::get_type(index) answers an unknown index (0: `typedef V<> VI;` with V a template, a
+    typedef whose target was never entered) with a placeholder whose _cpptype is null.  The generator's own belief:
+    is_cpp_type_legal() starts with `in_ctype == nullptr`, and three of the five lookups go through it.  Every use of
+    <looked-up type>._cpptype must be behind is_cpp_type_legal(<same>) or a null test of it.  (F-C15n.)"""
+    db = ctx.db
+    ctx.rule("R15.18", "in the generators, X._cpptype of a type X = idb->get_type(index) is used only as the argument of is_cpp_type_legal() / a null test, or behind one of the two holding for the same X")
+    n = 0
+    legal = db.fn("InterfaceMakerPythonNative::is_cpp_type_legal")
+    first_if = next((y for y in legal.walk() if y.get("k") == "if"), None)
+    prem = first_if is not None and any((G.cmp_atom(a) or [None, None, None])[0] == "==" and "nullp" in [(strip_casts(z) or {}).get("k") for z in G.cmp_atom(a)[1:]]
+                                        for a in [peel(first_if["c"])] if G.cmp_atom(a)) and any(r.get("k") == "ret" for r in walk(first_if["then"]))
+    ctx.ob("R15.18", "is_cpp_type_legal|rejects-null", bool(prem), legal.loc(first_if) if first_if else legal.loc(), "is_cpp_type_legal() begins by returning false for a null type")
+    for f in db.functions:
+        if "/interrogate/" not in f.file:
+            continue
+        binds = {}
+        for y in f.walk():
+            if y.get("k") == "decls":
+                for d in y["d"]:
+                    init = strip_casts(peel(d.get("init"))) if d.get("init") else None
+                    if init is not None and init.get("k") == "call" and init.get("f") == "InterrogateDatabase::get_type":
+                        binds[d["d"]] = d["n"]
+        if not binds:
+            continue
+
+        def is_cpptype_of(node, d):
+            node = strip_casts(peel(node)) if node is not None else None
+            if node is None or node.get("k") != "mem" or not (node.get("n") or "").endswith("InterrogateType::_cpptype"):
+                return False
+            b = local_ref(node.get("b"))
+            return b is not None and b.get("d") == d
+
+        uses = []
+        parent_call = {}
+        for c in f.walk():
+            if c.get("k") == "call":
+                for a in c.get("a", []):
+                    aa = strip_casts(peel(a))
+                    if aa is not None:
+                        parent_call[aa.get("i")] = c
+        for x in f.walk():
+            if x.get("k") == "mem" and (x.get("n") or "").endswith("InterrogateType::_cpptype"):
+                b = local_ref(x.get("b"))
+                if b is not None and b.get("d") in binds:
+                    uses.append((x, b["d"]))
+        for x, d in uses:
+            n += 1
+            inst = "%s|%s._cpptype@%s" % (f.name, binds[d], f.loc(x).split(":")[-1])
+            pc = parent_call.get(x.get("i"))
+            if pc is not None and callee_short(pc) == "is_cpp_type_legal":
+                ctx.ob("R15.18", "%s|%s._cpptype|is-the-test" % (f.name, binds[d]), True, f.loc(x), "argument of is_cpp_type_legal()")
+                continue
+
+            def safe(atom, truth, d=d):
+                a = strip_casts(peel(atom)) if atom is not None else None
+                if a is not None and a.get("k") == "call" and callee_short(a) == "is_cpp_type_legal" and a.get("a") and is_cpptype_of(a["a"][0], d):
+                    return truth
+                c = G.cmp_atom(atom)
+                if c:
+                    op, u, v = c
+                    if not truth:
+                        op = G.NEG[op]
+                    for p, q in ((u, v), (v, u)):
+                        if is_cpptype_of(p, d) and q is not None and (strip_casts(q) or {}).get("k") == "nullp":
+                            return op == "!="
+                    return False
+                return is_cpptype_of(atom, d) and truth
+            edges = G.edges_where(f, safe)
+            # the null test itself
+            ok = G.gated(f, x, edges)
+            if not ok and f.name in CPPTYPE_EXEMPT:
+                ctx.ob("R15.18", "%s|%s._cpptype|exception" % (f.name, binds[d]), True, f.loc(x), "reasoned exception: " + CPPTYPE_EXEMPT[f.name])
+                continue
+            if not ok:
+                # is this occurrence itself the operand of the null test?
+                for blk_atom in _atoms_of(f):
+                    c = G.cmp_atom(blk_atom)
+                    if c and any(is_cpptype_of(p, d) and (strip_casts(peel(p)) or {}).get("i") == x.get("i") for p in c[1:]):
+                        ok = True
+                    if not c and is_cpptype_of(blk_atom, d) and (strip_casts(peel(blk_atom)) or {}).get("i") == x.get("i"):
+                        ok = True        # `if (!X._cpptype)` / `if (X._cpptype)`
+            ctx.ob("R15.18", inst, ok, f.loc(x), "`%s` is %sbehind is_cpp_type_legal()/a null test of the same value" % (show(x), "" if ok else "NOT "))
+    ctx.floor("R15.18", "uses of _cpptype of looked-up database types", n, 8)
+
+
+def _atoms_of(f):
+    out = []
+
+    def leaves(n):
+        n = peel(n)
+        if n is None:
+            return
+        if n.get("k") == "bin" and n.get("op") in ("&&", "||"):
+            leaves(n["x"]); leaves(n["y"])
+        elif n.get("k") == "un" and n.get("op") == "!":
+            leaves(n["e"])
+        else:
+            out.append(n)
+    for y in f.walk():
+        if y.get("k") in ("if", "while", "for", "do") and y.get("c") is not None:
+            leaves(y["c"])
+    return out
+
+
+def nullable_array_bounds(ctx):
+    """R15.19: CPPArrayType::_bounds is null for an array of unknown bound (`extern int arr[];`, a flexible member, a
+    parameter `int a[]`) - valid C++.  Every dereference is behind a test of the same expression, except the setter
+    branch of FunctionRemap::get_call_str, whose guard sits at the other end: TypeManager::is_assignable() answers
+    `_bounds != nullptr` for an array and InterrogateBuilder calls get_setter() only behind is_assignable().  Both ends
+    are obligations.  (F-C15o: published `extern int arr[];` -> SIGSEGV.)"""
+    db = ctx.db
+    ctx.rule("R15.19", "every dereference of CPPArrayType::_bounds is dominated by a test that the same expression is not null; the one in get_call_str's setter branch is covered by is_assignable(): its ST_array arm returns `_bounds != nullptr` and get_setter() is called only where is_assignable() held")
+    n = 0
+    far = []
+    for f, x, b, key, ok in _nullable_field_sites(db, "CPPArrayType::_bounds"):
+        n += 1
+        inst = "%s|%s" % (f.name, _norm(show(x))[:50])
+        if not ok and f.name == "FunctionRemap::get_call_str":
+            setter = G.edges_where(f, lambda atom, truth: bool(G.cmp_atom(atom)) and (G.cmp_atom(atom)[0] if truth else G.NEG[G.cmp_atom(atom)[0]]) == "=="
+                                   and any((field_of(z) or "").endswith("FunctionRemap::_type") for z in G.cmp_atom(atom)[1:] if z is not None)
+                                   and any((z or {}).get("dk") == "enumc" and (z.get("n") or "").endswith("::T_setter") for z in G.cmp_atom(atom)[1:] if z is not None))
+            if setter and G.gated(f, x, setter):
+                far.append((f, x, inst))
+                continue
+        ctx.ob("R15.19", inst, ok, f.loc(x), "`%s` is %sbehind a test that %s is not null" % (show(x)[:50], "" if ok else "NOT ", key))
+    ctx.floor("R15.19", "dereferences of CPPArrayType::_bounds", n, 8)
+    if not far:
+        return
+    # premise 1: is_assignable's array arm
+    ia = db.fn("TypeManager::is_assignable")
+    arm_ok = False
+    where = ia.loc()
+    en = db.enums.get("CPPDeclaration::SubType")
+    st_array = next((c["v"] for c in en["consts"] if c["n"] == "ST_array"), None) if en else None
+    for sw in [y for y in ia.walk() if y.get("k") == "switch"]:
+        for labs, stmts in switch_arms(sw):
+            if st_array in labs:
+                rets = [r for st in stmts for r in walk(st) if r.get("k") == "ret"]
+                where = ia.loc(rets[0]) if rets else ia.loc(sw)
+                arm_ok = bool(rets)
+                for r in rets:
+                    c = G.cmp_atom(peel(r.get("e")))
+                    good = bool(c) and c[0] == "!=" and any((field_of(strip_casts(peel(z))) or "").endswith("CPPArrayType::_bounds") for z in c[1:] if z is not None) \
+                        and any((strip_casts(z) or {}).get("k") == "nullp" for z in c[1:] if z is not None)
+                    # `cond && ...` forms: every conjunct list must contain the test
+                    if not good:
+                        e = peel(r.get("e"))
+                        conj = []
+
+                        def flat(m):
+                            m = peel(m)
+                            if m is not None and m.get("k") == "bin" and m.get("op") == "&&":
+                                flat(m["x"]); flat(m["y"])
+                            elif m is not None:
+                                conj.append(m)
+                        flat(e)
+                        good = any((G.cmp_atom(m) or [None])[0] == "!=" and any((field_of(strip_casts(peel(z))) or "").endswith("CPPArrayType::_bounds") for z in G.cmp_atom(m)[1:] if z is not None) for m in conj)
+                    arm_ok = arm_ok and good
+    ctx.ob("R15.19", "TypeManager::is_assignable|ST_array|needs-a-bound", arm_ok, where,
+           "an array is assignable only if its bound is known" if arm_ok else "is_assignable() has no ST_array arm answering `_bounds != nullptr`: a setter is synthesised for `extern int arr[];`")
+    # premise 2: get_setter only behind is_assignable
+    n_calls = 0
+    for f in db.functions:
+        if "/interrogate/" not in f.file:
+            continue
+        for c in f.walk():
+            if c.get("k") == "call" and c.get("f") == "InterrogateBuilder::get_setter":
+                n_calls += 1
+                e = G.edges_where(f, G.pred_true("is_assignable"))
+                ok = G.gated(f, c, e)
+                ctx.ob("R15.19", "%s|get_setter|behind-is_assignable" % f.name, ok, f.loc(c), "get_setter() is %scalled only where is_assignable() held" % ("" if ok else "NOT "))
+    ctx.floor("R15.19", "calls of get_setter", n_calls, 1)
+    for f, x, inst in far:
+        ctx.ob("R15.19", inst + "|guarded-at-synthesis", True, f.loc(x), "setter branch: covered by the two obligations on is_assignable()/get_setter()")
